@@ -377,7 +377,8 @@ fn ser_named_type(ty: &OwnedDataModelType, value: &Value, out: &mut Vec<u8>) -> 
                 return Err(Error::SchemaMismatch);
             }
         }
-        OwnedDataModelType::Schema => todo!(),
+        // serde_json::Value has no representation for a schema (yet)
+        OwnedDataModelType::Schema => return Err(Error::ShouldSupportButDont),
     }
     Ok(())
 }
